@@ -228,7 +228,7 @@ def path_to_script(path):
         elif op == "saveload": lines.append("saveload %d %d text" % (cur["i"], cur["p"]))
     for rec in path:
         if "call" in rec:
-            flush(); cur = rec; gv = {}; plan = []
+            flush(); cur = rec; gv = dict(rec.get("gc", {})) if isinstance(rec.get("gc"), dict) else {}; plan = []
         else:
             if rec["k"] == "g": gv[rec["g"]] = rec["r"]
             d = rec["d"]
